@@ -707,8 +707,9 @@ func canTstr(v any) bool {
 
 // canBstr reports whether v can be used as a CBOR bstr type.
 func canBstr(v any) bool {
-	_, ok := v.([]byte)
-	return ok
+	// a nil slice is encoded as the CBOR null, not as a bstr
+	b, ok := v.([]byte)
+	return ok && b != nil
 }
 
 // normalizeLabel tries to cast label into a int64 or a string.
